@@ -556,8 +556,8 @@ package flags
 //@   loop 3 invariant[C04] s.err == loopentry(s.err) || isTyped(s.err, ErrMarshal) || (is(s.err, *Error) && exists(k, loopentry(ncalls(Option.clearDefault)), ncalls(Option.clearDefault), s.err == callres(Option.clearDefault, k, 0)))
 //@   ensures[C09] ncalls(Commander.Execute) + ncalls(Parser.CommandHandler) <= e0 + h0 + 1
 //@   ensures[C09] compl || p.internalError != nil ==> ncalls(Commander.Execute) == e0 && ncalls(Parser.CommandHandler) == h0
-//@   ensures[C09] ncalls(Commander.Execute) == e0 + 1 ==> err == callres(Commander.Execute, e0, 0) && (err == nil ==> same(rest, callarg(Commander.Execute, e0, 1)))
-//@   ensures[C09] ncalls(Parser.CommandHandler) == h0 + 1 ==> err == callres(Parser.CommandHandler, h0, 0) && (err == nil ==> same(rest, callarg(Parser.CommandHandler, h0, 1)))
+//@   ensures[C09] ncalls(Commander.Execute) == e0 + 1 ==> err == callres(Commander.Execute, e0, 0) && same(rest, callarg(Commander.Execute, e0, 1))
+//@   ensures[C09] ncalls(Parser.CommandHandler) == h0 + 1 ==> err == callres(Parser.CommandHandler, h0, 0) && same(rest, callarg(Parser.CommandHandler, h0, 1))
 //@   ensures[C09] ncalls(Commander.Execute) + ncalls(Parser.CommandHandler) == e0 + h0 + 1 ==> ncalls(parseState.checkRequired) == cr0 + 1 && callres(parseState.checkRequired, cr0, 0) == nil
 //@   ensures[C09] ncalls(Commander.Execute) == e0 + 1 ==> calltime(parseState.checkRequired, cr0) < calltime(Commander.Execute, e0)
 //@   ensures[C09] ncalls(Parser.CommandHandler) == h0 + 1 ==> calltime(parseState.checkRequired, cr0) < calltime(Parser.CommandHandler, h0)
